@@ -5,6 +5,7 @@ package props
 import (
 	"bytes"
 	"fmt"
+	"os"
 	"path/filepath"
 	"sort"
 	"strings"
@@ -169,6 +170,19 @@ func iterRunner(c C18Case) (run func(cb func(Item) bool), unordered bool, errorI
 			// no input at all: the path that cannot be opened
 			missing := filepath.Join(scratchDir(), "no-such-dir", "missing."+format)
 			return codec.FileSeq(missing), false, codec.ErrorIsLast, true
+		}
+		if string(c.Text.Raw) == "\x00directory" || string(c.Text.Raw) == "\x00cutgz" {
+			// a path that opens but cannot be read: a directory, or a *.gz cut right after its header
+			name := fmt.Sprintf("unreadable%d x.%s", nextTmp(), format)
+			path := filepath.Join(scratchDir(), name)
+			if string(c.Text.Raw) == "\x00directory" {
+				os.Mkdir(path, 0o755)
+			} else {
+				path += ".gz"
+				os.WriteFile(path, []byte{0x1f, 0x8b, 8, 0, 0, 0, 0, 0, 0, 0xff}, 0o644)
+			}
+			trackTemp(path)
+			return codec.FileSeq(path), false, codec.ErrorIsLast, true
 		}
 		path := writeTemp(text, "."+format)
 		return codec.FileSeq(path), false, codec.ErrorIsLast, true
@@ -430,6 +444,10 @@ func exhaustiveC18(thorough bool, emit func(C18Case) bool) {
 	}
 	for _, f := range codecNames {
 		if !emit(C18Case{Iter: f + "-file"}) { // no text: File on a path that cannot be opened
+			return
+		}
+		// File on a path that opens but cannot be read
+		if !emit(C18Case{Iter: f + "-file", Text: StreamText{Raw: gen.B("\x00directory")}}) || !emit(C18Case{Iter: f + "-file", Text: StreamText{Raw: gen.B("\x00cutgz")}}) {
 			return
 		}
 	}
